@@ -98,8 +98,8 @@ def ferr (input : Bytes) : FErr → String
   | .panic => "PANIC"
   | .fuelOut => "HANG"
 
-def answerFile (name input : Bytes) (items : List Item) : String :=
-  match parseFile Parser.parseFloatStub (exprFuel items) items with
+def answerOf (name input : Bytes) (r : Except FErr (List Node)) : String :=
+  match r with
   | .ok body =>
     -- trees with a static counterpart travel through `Node.toCmd?` and the shared encoder of
     -- Model/AstWire.lean (which validates the conversion); the others through `encFile`
@@ -112,17 +112,14 @@ def ops : List Op := [
   ("parsefile2", fun f => match f with
     | [name, src, toks] =>
       match Bytes.ofHex name, Bytes.ofHex src, Parser.decItems toks with
-      | some nm, some input, some items => answerFile nm input items
+      | some nm, some input, some items =>
+        answerOf nm input (parseFile Parser.parseFloatStub (exprFuel items) items)
       | _, _, _ => "BADREQ"
     | _ => "BADREQ"),
   ("parsesrc", fun f => match f with
     | [name, src] =>
       match Bytes.ofHex name, Bytes.ofHex src with
-      | some nm, some input =>
-        match Lex.lexAll input false with
-        | .items items => answerFile nm input items
-        | .panic => "PANIC"
-        | .fuelOut => "HANG"
+      | some nm, some input => answerOf nm input (parseSource Parser.parseFloatStub input)
       | _, _ => "BADREQ"
     | _ => "BADREQ"),
   ("gounquote", fun f => match f with
